@@ -247,3 +247,21 @@ Example C08_example_sis_first_hit :
   /\ handlers_of_ex (r_out r) = [(1%nat, 1, EE 1 0); (0%nat, 2, EN 1); (1%nat, 3, EE 1 0)]
   /\ cw_hit (world (r_final r)) = [(1%Z, 1)].
 Proof. cbv zeta. repeat split; vm_compute; reflexivity. Qed.
+
+(* ---- tie A for the event functions: a program regenerated from the Python source (harness/evsrc.py,
+   Model/EvProg.v) whose summary is h IS the event function `handler h` of the tables above, marks
+   included: same world, same kernel actions, for every time, element and state.  The per-run
+   obligation `summarise src = Some h` (Generated EvSrc_full_<model>.v) instantiates it for every
+   registered event function of every shipped model. *)
+From EpyV Require Import Model.EvProg Proofs.EvProg.
+Theorem C08_event_functions_from_source : forall p h, summarise p = Some h ->
+  forall tbl off t e kloci w, interp tbl off p t e kloci w = handler tbl off h t e kloci w.
+Proof. exact summarise_sound. Qed.
+
+Example C08_event_functions_example :
+  summarise (PEdge [SUnpack; SChange 2; SMarkOcc true; SMarkHit true]) = Some (HLeft 2 true None)
+  /\ summarise (PEdge [SUnpack; SChange 2; SMarkOcc true]) = None            (* markHit dropped *)
+  /\ summarise (PEdge [SUnpack; SChange 2; SMarkOcc false; SMarkHit true]) = None   (* not first-only *)
+  /\ summarise (PEdge [SUnpack; SChange 3]) = Some (HLeft 3 false None)
+  /\ summarise (PNode [SSetAttr; SSetAttr]) = Some HNop.
+Proof. repeat split; vm_compute; reflexivity. Qed.
